@@ -163,8 +163,8 @@ def shrink_bucket(prop_id, tier, seed, entry, nshards, known, bucket, timeout_s,
 def write_replay(prop_id: str, bucket: str, entry: dict, seed: int, tier: str) -> Path:
     from vp.common.harness import digest
 
-    d = VERIF / "replays"
-    d.mkdir(exist_ok=True)
+    d = Path("/dev/shm/verif-alt/replays") if os.environ.get("VERIF_SRC") else VERIF / "replays"
+    d.mkdir(parents=True, exist_ok=True)
     path = d / f"{prop_id}-{digest([bucket, entry['case']])}.json"
     doc = {
         "property": prop_id,
